@@ -95,7 +95,17 @@ pub struct Uci {
 
 impl Uci {
     pub fn spawn() -> Result<Uci, String> {
-        let mut child = Command::new(binary())
+        Uci::spawn_env(&[])
+    }
+
+    /// With extra environment variables (e.g. RAYON_NUM_THREADS: the size of the engine's worker pool
+    /// is configuration a user controls).
+    pub fn spawn_env(vars: &[(&str, String)]) -> Result<Uci, String> {
+        let mut cmd = Command::new(binary());
+        for (k, v) in vars {
+            cmd.env(k, v);
+        }
+        let mut child = cmd
             .arg("uci")
             .env("NO_COLOR", "1")
             .stdin(Stdio::piped())
